@@ -56,6 +56,21 @@ func TestMakeSeeds(t *testing.T) {
 		write(t, dir, "kf-olvm-nonce-gap.json", c, "olvm-replay-executed", "C05/olvm-replay-executed/OLVM+nonce-gap/olvm-payload-whitespace",
 			"OLVM transfer with nonce = account nonce + 1 executes; the same EIP-155 content with a space inside the payload JSON executes again")
 	}
+	// regression: message calls that fail inside the EVM consume their nonce too
+	for _, which := range []string{"revert", "loop", "store"} {
+		c := &Case{Seed: "c05-seed", Opts: hist.FarmOpts{A: 0, B: 1, Eth: 0, Var: 0}, Kind: "OLVM", Call: which, Pre: 0, Gap: 1}
+		w, f, err := buildWorld(c.Seed, c.Opts)
+		if err != nil {
+			t.Fatal(err)
+		}
+		c.Orig = f.MakeOLVMCall(which, 0, 7).Bytes
+		w.Close()
+		c.Encs, err = buildEncs("OLVM", c.Orig, fixedChooser{}, nil)
+		if err != nil {
+			t.Fatal(err)
+		}
+		write(t, dir, "seed-olvm-call-"+which+".json", c, "seed", "C05/seed", "every re-encoding operator on an executed OLVM message call ("+which+")")
+	}
 	// regression inputs that must pass
 	c = mk("SEND")
 	c.Encs = []Enc{{"identity", c.Orig}}
